@@ -44,9 +44,17 @@ pub struct Stats {
     pub worst: BTreeMap<String, f64>,
     pub sim_events: u64,
     pub oracle_evals: u64,
+    /// small named sets of hashes (reach measures such as "distinct n=6 trees")
+    pub sets: BTreeMap<&'static str, std::collections::BTreeSet<u64>>,
 }
 
 impl Stats {
+    pub fn note(&mut self, name: &'static str, h: u64) {
+        let s = self.sets.entry(name).or_default();
+        if s.len() < 100_000 {
+            s.insert(h);
+        }
+    }
     #[inline]
     pub fn bump(&mut self, name: &'static str) {
         *self.counters.entry(name).or_insert(0) += 1;
@@ -73,6 +81,14 @@ impl Stats {
         }
         self.sim_events += o.sim_events;
         self.oracle_evals += o.oracle_evals;
+        for (k, v) in &o.sets {
+            let s = self.sets.entry(k).or_default();
+            for h in v {
+                if s.len() < 100_000 {
+                    s.insert(*h);
+                }
+            }
+        }
     }
 }
 
@@ -291,6 +307,9 @@ pub fn evidence_json(
         oracle += b.stats.oracle_evals;
         for (k, v) in &b.stats.counters {
             *counters.entry(format!("{}", k)).or_insert(0) += v;
+        }
+        for (k, v) in &b.stats.sets {
+            *counters.entry(format!("{}", k)).or_insert(0) += v.len() as u64;
         }
         for (k, v) in &b.stats.worst {
             let e = worst.entry(k.clone()).or_insert(0.0);
